@@ -170,10 +170,11 @@ HCheckCands(s) ==
     LET chains == {<< <<"I", a>> >> : a \in IdsI(s)}
                   \cup {<< <<"I", a>>, <<"I", b>> >> : <<a, b>> \in IdsI(s) \X IdsI(s)}
                   \cup {<< <<"I", a>>, <<"I", b>>, <<"I", c>> >> : <<a, b, c>> \in IdsI(s) \X IdsI(s) \X IdsI(s)}
+        deep == {h \in OccInst(s, TheNetlist(s)) : Len(h) >= 4}       \* every occurrence deeper than the enumerated chains
         short == {h \in chains : Len(h) <= 2}
         items == {<< <<"P", x>> >> : x \in IdsP(s)} \cup {<< <<"C", x>> >> : x \in IdsC(s)}
                  \cup {<< <<"P", s.pinPort[q]>>, <<"Q", q>> >> : q \in {qq \in IdsQ(s) : s.pinPort[qq] # None}}
                  \cup {<< <<"C", s.wireCable[w]>>, <<"W", w>> >> : w \in {ww \in IdsW(s) : s.wireCable[ww] # None}}
-        all == chains \cup {a \o b : <<a, b>> \in short \X items}
+        all == chains \cup deep \cup {a \o b : <<a, b>> \in short \X items}
     IN {HCheck(SetToSeqAny(all))}
 =============================================================================
